@@ -26,6 +26,12 @@ def job_fn(pool: dict, vfs: Vfs, job: dict):
     k = job["k"]
 
     def run():
+        d = run_inner()
+        if isinstance(d, dict):
+            d["process_settings_after"] = model.process_settings()
+        return d
+
+    def run_inner():
         if k == "C":
             t = pool["texts"][job["i"]]
             c = sut.new_compiler(t.get("lookup"))
